@@ -199,7 +199,9 @@ fn churn(r: &mut Rng) -> Profile {
     p.will_pct = 0;
     p.auth_pct = 0;
     p.downgrade_pct = 50;
-    p.tx_choices = vec![64, 96, 128, 256, 512, 1024, 4096, 16384, 65536];
+    // (under Miri - about a thousand times slower - the arenas of 16 KiB and 64 KiB are left to the
+    // native run: one battery on such an arena took a shard beyond half an hour)
+    p.tx_choices = if cfg!(miri) { vec![64, 96, 128, 256, 512, 1024, 4096, 1024, 256] } else { vec![64, 96, 128, 256, 512, 1024, 4096, 16384, 65536] };
     p.rx_choices = vec![64, 128];
     p.payload_max = *r.pick(&[8usize, 30, 60, 200, 3000]);
     p.cancel_pct = 8;
